@@ -222,6 +222,8 @@ func init() {
 			obs = append(obs, c.TagDispatch("nbt", "nbt/dynbt")...)
 			obs = append(obs, c.ListProgress()...)
 			obs = append(obs, c.SignCheckBeforeSuccess(in)...)
+			obs = append(obs, filterObs(c.RawRead(), func(o core.Ob) bool { return strings.HasPrefix(o.Key, "nbt.") || strings.HasPrefix(o.Key, "nbt/") })...)
+			obs = append(obs, c.StringIndexGuards(in)...)
 			obs = append(obs, c.rootObs("R-TLG", "nbt.(*Decoder).Decode", "nbt/dynbt.(*Value).UnmarshalNBT", "nbt.(*StringifiedMessage).UnmarshalNBT", "nbt.(*RawMessage).UnmarshalNBT")...)
 			return obs
 		},
@@ -234,6 +236,8 @@ func init() {
 			obs = append(obs, c.Panics(c.Verif, c.DecoderRoots(), yes, armed)...)
 			obs = append(obs, c.FuncFieldCalls(yes, armed)...)
 			obs = append(obs, c.StringIndexGuards(armed)...)
+			obs = append(obs, c.StringVarIndexGuards(armed)...)
+			obs = append(obs, c.PaletteConfig()...)
 			obs = append(obs, c.GuardedCalls("level.NewBitStorage", 2, c.NetworkRoots(), yes, armed)...)
 			obs = append(obs, c.rootObs("R-TLG", "net/packet.(*Packet).UnPack", "net/packet.(*String).ReadFrom", "net/packet.(*ByteArray).ReadFrom", "net/packet.(*BitSet).ReadFrom",
 				"net/packet.(Ary).ReadFrom", "level.(*BitStorage).ReadFrom", "level.(*PaletteContainer).ReadFrom", "level.(*Chunk).ReadFrom", "registry.(*Registry).ReadFrom", "registry.(*Registry).ReadTagsFrom")...)
@@ -249,6 +253,9 @@ func init() {
 			obs = append(obs, c.Pools("net/packet")...)
 			obs = append(obs, c.ThresholdPlumbing()...)
 			obs = append(obs, c.UnpackAssigns()...)
+			obs = append(obs, c.ConnInit()...)
+			obs = append(obs, c.VarLen()...)
+			obs = append(obs, filterObs(c.RawRead(), func(o core.Ob) bool { return strings.HasPrefix(o.Key, "net/packet.") || strings.HasPrefix(o.Key, "net.") })...)
 			obs = append(obs, c.ErrFlow(in, in)...)
 			obs = append(obs, filterObs(c.NoReadAhead(), func(o core.Ob) bool { return strings.Contains(o.Key, "packet") || o.Key == "scope" })...)
 			obs = append(obs, c.rootObs("R-TLG", "net/packet.(*Packet).UnPack", "net/packet.(*Packet).Pack")...)
